@@ -17,6 +17,8 @@ def identity(c, clause, ev):
        "min_exp_le_-48": min_exp(c) <= -48}
   if ev is not None and "x" in ev:
     x = abs(undy(ev["x"]))
+    if c["cls"] == "relu_po2" and ev["x"][0] < 0:
+      x = x * 2.0 ** -c["sl"] if c["sl"] > 0 else 0.0      # the magnitude the negative branch quantizes: slope*|x| (0 without slope)
     d["x_below_epsilon"] = x < 1.0000000116860974e-07
     # exponent of the power of two that is being (re-)quantized: the magnitude fed to log2 for the nearest clause,
     # the first output for the idempotence clause
